@@ -22,6 +22,9 @@ func CalleeName(c *ssa.CallCommon) string {
 		return ""
 	}
 	if c.IsInvoke() {
+		if t := ifaceTarget(c.Method); t != nil {
+			return canonFullName(t)
+		}
 		return canonFullName(c.Method)
 	}
 	switch v := c.Value.(type) {
